@@ -438,6 +438,12 @@ class ndarray(object):
         return self._d[0]
 
     def copy(self, order='C'):
+        if order in ('K', 'A'):
+            order = 'F' if self._f_contiguous() else 'C'
+        if order == 'F' and self.ndim > 1:
+            return self.transpose().copy().transpose()      # fresh buffer in column-major layout
+        if order not in ('C', 'F'):
+            raise ValueError("order must be one of 'C', 'F', 'A', or 'K'")
         return ndarray(self.shape, self.dtype, list(self._d))
 
     def __copy__(self):
